@@ -11,6 +11,8 @@ func FragmentOK(root *Node) bool {
 	ok := true
 	root.Walk(func(n *Node) {
 		switch n.K {
+		case KBalance:
+			ok = false // balancing groups are outside the fragment (and the specification)
 		case KRepeat:
 			if Nullable(n.Kids[0]) || ReducesToRepeat(n.Kids[0]) {
 				ok = false
